@@ -55,7 +55,7 @@ def model_value(m, v: values.V, depth=0):
     if k == "int":
         r = m.eval(v.t, model_completion=True)
         return r.as_long() if z3.is_int_value(r) else str(r)
-    if k == "bool":
+    if k in ("bool", "dir"):
         return z3.is_true(m.eval(v.t, model_completion=True))
     if k == "none":
         return None
@@ -251,12 +251,9 @@ class PropertyRun:
         model_vals = None
         try:
             s = z3.Solver()
-            s.set("timeout", 20000)
-            for a in self.vc_axioms[v.name]:
-                s.add(a)
-            for h in v.hyps:
-                s.add(h)
-            s.add(z3.Not(v.goal))
+            s.set("timeout", 30000)
+            # same text the CLI solver decided (names are shared with this context, so inputs evaluate by name)
+            s.from_string(self._smt[v.name])
             if s.check() == z3.sat:
                 m = s.model()
                 model_vals = {k: model_value(m, val) for k, val in v.inputs.items()}
@@ -335,15 +332,18 @@ class PropertyRun:
             if f.hit:
                 lines.append(f"KNOWN-FINDING: property={pid} {f.text}")
         rdir = os.path.join(ROOT, "replays", pid)
-        seen_keys = set()
+        by_key: Dict[str, list] = {}
         for rec in new_violations:
+            by_key.setdefault(rec["key"], []).append(rec)
+        for key, recs in by_key.items():
             os.makedirs(rdir, exist_ok=True)
+            # one VIOLATION line per key; a record whose counterexample replayed on the real code is preferred
+            recs.sort(key=lambda r: not r.get("confirmed_on_real_code"))
+            rec = recs[0]
+            rec["other_failed_obligations"] = [r["obligation"] for r in recs[1:]][:20]
             path = os.path.join(rdir, sanitize(rec["obligation"].split("/", 1)[-1] + "-" + rec["key"]) + ".json")
             with open(path, "w") as fh:
                 json.dump(rec, fh, indent=1, default=repr)
-            if rec["key"] in seen_keys:
-                continue
-            seen_keys.add(rec["key"])
             suffix = "" if rec.get("confirmed_on_real_code") else " no-failing-input-found"
             lines.append(f"VIOLATION property={pid} replay={path}{suffix}")
         proof_vcs = [v for v in self.vcs if v.expect == "unsat"]
